@@ -6,12 +6,11 @@ HERE = os.path.dirname(os.path.dirname(os.path.abspath(__file__)))
 HOOK_COMMITS = subprocess.run(["git", "-C", "/repo", "log", "--format=%h %s", "--grep=^verif:"],
                               stdout=subprocess.PIPE).stdout.decode().strip().splitlines()
 
-# id -> (text, level_note, technique, design_ref)
-CLAIMED = {
- "C07": ("Coq theorems over Model/Range.v: the Range parser and the range answer never panic for any byte string; every 206 lies inside the stored representation with the announced length and bytes; a well-formed single range (arbitrary-length digit strings) is served exactly or not as a 206; every refusal is a 416 with the stored size or the full 200; If-Range mismatch never yields a 206. The model is tied to /repo on every run by differential correspondence on bounded-exhaustive, boundary and random Range strings (unit hooks) and end to end through a running proxy.",
-         "Trusted: Coq kernel+VM, the hand-written model (compared with the code on every run, not derived from it), Go harness and driver. Go's rune iteration vs the model's byte iteration argued in Model/Range.v. All theorems closed under the global context.",
-         "Rocq/Coq proof over executable model + differential correspondence evaluated by vm_compute", "DESIGN.md §5 C07"),
-}
+import glob
+CLAIMED = {}
+for fp in sorted(glob.glob(os.path.join(HERE, "manifest.d", "*.json"))):
+    fr = json.load(open(fp))
+    CLAIMED[fr["id"]] = (fr["text"], fr["note"], fr["technique"], fr.get("design_ref", "DESIGN.md §5"))
 
 NOT_YET = {}  # id -> reason
 
